@@ -233,6 +233,11 @@ def forms():
         "flatten F": lambda m, x: x.flatten("F"),
         "astype": lambda m, x: x.astype(onp.float32),
         "astype complex": lambda m, x: x.astype(complex),
+        "astype then K": lambda m, x: m.ravel(x.astype(onp.float32), order="K"),
+        "astype then A": lambda m, x: m.reshape(x.astype(complex), (3, 2), order="A"),
+        "ravel K": lambda m, x: m.ravel(x * 2.0, order="K"),
+        "ravel A": lambda m, x: m.ravel(x, order="A"),
+        "T then K": lambda m, x: m.ravel(x.T, order="K"),
         "T": lambda m, x: x.T,
         "x.max": lambda m, x: x.max(1),
         "x.sum kw": lambda m, x: x.sum(axis=0, keepdims=True),
@@ -375,7 +380,7 @@ def forms_body(c):
     f = _FORMS[name]
     stack = draw_stack(c)
     vseed = c.seed()
-    x = values.generic(vseed, [(2, 3)], -1.5, 1.5)[0][0]
+    x = values.relayout(values.generic(vseed, [(2, 3)], -1.5, 1.5)[0][0], values.layout_key(vseed, 901))
     x.flags.writeable = False
     sample = {"form": name, "stack": stack, "vseed": vseed}
     try:
